@@ -381,6 +381,7 @@ package data
 //@ spec contigc(d []int, od []int, st []int, of []int, n int) bool = forall(k, 0, n, implies(d[k] > 1, agree(d, od, k+1, n) && st[k] <= 1 && of[k] <= pfrom(d, k+1, n)))
 
 //@ func (*nd{t}).Unroll(nd) returns (r)
+//@   simplify entry-ids
 //@   safety C02
 //@   chain ensures
 //@   uses C02.lemma-iprod-positive, C02.lemma-idot-rm, C02.lemma-idot-last
